@@ -105,18 +105,25 @@ func (pm *PeerManager) GetProcess(
 func (pm *PeerManager) getOrCreate(p peer.ID) *peerProcessInstance {
 	pqi, ok := pm.peerProcesses[p]
 	if !ok {
-		pq := pm.createPeerProcess(pm.ctx, p, pm.onQueueShutdown)
+		pqi = &peerProcessInstance{}
+		instance := pqi
+		pq := pm.createPeerProcess(pm.ctx, p, func(p peer.ID) { pm.onQueueShutdown(p, instance) })
 		if pprocess, ok := pq.(PeerProcess); ok {
 			pprocess.Startup()
 		}
-		pqi = &peerProcessInstance{0, pq}
+		pqi.process = pq
 		pm.peerProcesses[p] = pqi
 	}
 	return pqi
 }
 
-func (pm *PeerManager) onQueueShutdown(p peer.ID) {
+// onQueueShutdown is called by a peer process when it has stopped. It removes the table entry only
+// if that entry still belongs to the process that stopped: after a disconnect followed by a
+// reconnect the entry already belongs to the successor, which must stay reachable.
+func (pm *PeerManager) onQueueShutdown(p peer.ID, instance *peerProcessInstance) {
 	pm.peerProcessesLk.Lock()
 	defer pm.peerProcessesLk.Unlock()
-	delete(pm.peerProcesses, p)
+	if pm.peerProcesses[p] == instance {
+		delete(pm.peerProcesses, p)
+	}
 }
